@@ -70,6 +70,11 @@ MODULES = {
          "adaptive_thresholds_linear_voltage": {"spikes": "optB"},
          "adaptive_thresholds_linear_spike": {"spikes": "B"}},
     ),
+    "Math": (
+        "inferno/core/math.py",
+        ["exponential_smoothing"],
+        {},
+    ),
     "Bounding": (
         "inferno/functional/bounding.py",
         ["bound_upper_power", "bound_lower_power", "bound_power",
@@ -645,13 +650,60 @@ def translate_recordsz(repo: str = REPO):
     return txt, man
 
 
+def translate_conv_outsize(repo: str = REPO):
+    """Conv2D.__init__: the output height/width expression (a generator over the two spatial axes)."""
+    path = "inferno/neural/connections/conv.py"
+    tree = ast.parse(open(os.path.join(repo, path)).read())
+    cls = [n for n in tree.body if isinstance(n, ast.ClassDef) and n.name == "Conv2D"]
+    if not cls:
+        raise TranslationError("Conv2D not found")
+    init = [n for n in cls[0].body if isinstance(n, ast.FunctionDef) and n.name == "__init__"][0]
+    found = []
+    for st in ast.walk(init):
+        if isinstance(st, ast.Assign) and ast.unparse(st.targets[0]) == "(self.outheight, self.outwidth)":
+            found.append(st)
+    if len(found) != 1 or not isinstance(found[0].value, ast.GeneratorExp):
+        raise TranslationError("Conv2D output-size assignment not found / not a generator expression")
+    gen = found[0].value
+    if len(gen.generators) != 1 or ast.unparse(gen.generators[0].iter) != "enumerate((self.height, self.width))" \
+            or ast.unparse(gen.generators[0].target) != "(d, size)":
+        raise TranslationError("Conv2D output-size generator has an unexpected shape")
+    ren = {"self.padding[d]": "padding", "self.dilation[d]": "dilation", "self.kernel[d]": "kernel", "self.stride[d]": "stride"}
+
+    class R(ast.NodeTransformer):
+        def visit_Subscript(self, n):
+            s_ = ast.unparse(n)
+            if s_ in ren:
+                return ast.Name(id=ren[s_], ctx=ast.Load())
+            return self.generic_visit(n)
+    e = R().visit(ast.parse(ast.unparse(gen.elt)).body[0].value)
+    tr = Translator({})
+    v = tr.expr(e, {"size": "Z", "padding": "Z", "dilation": "Z", "kernel": "Z", "stride": "Z"})
+    if v[1] != "Z":
+        raise TranslationError("Conv2D output-size expression is not an integer")
+    txt = ("Definition conv_outsize (N : Num) (size : Z) (padding : Z) (dilation : Z) (kernel : Z) (stride : Z) : Z :=\n"
+           f"  {v[0]}.\n")
+    man = {"module": "Conv", "source": path, "function": "Conv2D.__init__.<output size expression>",
+           "lines": [found[0].lineno, found[0].end_lineno], "sha256": hashlib.sha256(ast.unparse(e).encode()).hexdigest()}
+    return txt, man
+
+
+SPECIAL = {"Conv": translate_conv_outsize}
+
+
 def generate(outdir: str, modules: list[str] | None = None, repo: str = REPO):
     """Translate the requested modules; returns (manifest, errors)."""
     os.makedirs(outdir, exist_ok=True)
     manifest, errors = [], {}
-    for m in (modules or list(MODULES)):
+    for m in (modules or (list(MODULES) + list(SPECIAL))):
         try:
-            txt, man = translate_module(m, repo)
+            if m in SPECIAL:
+                t2, m2 = SPECIAL[m](repo)
+                txt = ("(* GENERATED by tools/translate.py -- do not edit *)\nFrom Coq Require Import ZArith Bool.\n"
+                       "From Inferno Require Import Base.Num.\n\n" + t2)
+                man = [m2]
+            else:
+                txt, man = translate_module(m, repo)
             if m == "Infra":
                 t2, m2 = translate_recordsz(repo)
                 txt += "\n" + t2
